@@ -66,6 +66,14 @@ CLAIMED = {
             "Whole parser: every input of the C01 spaces, of the C05 mutation closure (Parse and ParseND) and of the C08 line space under AVX-512 and AVX2 kernels: same outcome, identical Tape and Strings. Kernel level: both find_structural_bits_in_slice variants on 64-byte blocks with the last 5 (thorough 6) bytes enumerated over 10 byte classes x 3 fillers, two-block buffers with the first 5 (6) bytes of the second block enumerated, and every padded tail length 1..63 with 4 enumerated bytes, under 16 carried states x ndjson; indexes, counts, processed, carried, position and state words compared.",
             "Needs AVX-512F (present here); otherwise exhaustive:false and nothing compared.",
             "DESIGN.md 4.6"),
+    "C15": ("exhaustive enumeration of bounded call histories on one reused object, compared with the same calls on fresh objects",
+            "Every history of <= 3 operations over 34 ops: Parse on 9 documents (small and concurrent-path; success, stage-1 error, stage-2 error early/late, 20000-byte string) x copy/no-copy, ParseND on 4 documents x 2, three kinds of in-place edit of the current result, Deserialize of 3 blobs into the current object through a reused Serializer. After each reuse call, outcome and exact exposed document (flat walk, all walkers, marshal, tape format) must equal the same call with nil reuse.",
+            "Stage interleaving of concurrent-path documents is left to the Go scheduler here (C07 explores it). Each call gets a private copy of its input (Deserialize into a reused object writes into its Message, which aliases the caller's buffer; observation recorded in DESIGN.md).",
+            "DESIGN.md 4.15"),
+    "C16": ("exhaustive enumeration of documents x input overwrites, and of bounded Clone/edit histories, on the real code vs. snapshots and per-object models",
+            "Every document of the C02 space (2 layouts + ladders), 9 escape kinds at every position of every string length <= 70 (key and value) and every accepted C08 line sequence: parse with copying, snapshot all read/marshal/serialize APIs, overwrite the input with 5 patterns: snapshot unchanged; no-copy parse of an intact buffer gives the same snapshot. Every history of <= 3 operations over {4 edits x 3 positions on original or clones, Clone into nil or into any existing object} on 3 seeds x 2 string modes: every object equals its own model after every step and after the input buffer is overwritten.",
+            "Stream-delivered values are checked in C09.",
+            "DESIGN.md 4.16"),
 }
 
 PENDING_REASON = "check not built yet in this round (planned, see DESIGN.md section 8); not claimed until its machinery exists"
